@@ -82,39 +82,93 @@ def _size(e):
     return 1 + sum(_size(c) for c in e.children())
 
 
-def instantiate_hints(hyps, neg_goal):
+def instantiate_hints(hyps, neg_goal, rounds=2, wide=True):
     """Sound strengthening of a query that came back unknown: skolemise the negated goal and add instances of the
-    one-variable universally quantified hypotheses at terms built from the skolem constants (t, t-1, t+1, t-c, t+c-...)."""
-    g = z3.Goal()
-    g.add(neg_goal)
-    sk = z3.Tactic("snf")(g)[0]
-    sk_fmls = [sk[i] for i in range(len(sk))]
-    consts = [t for t in _ground_int_terms(sk_fmls) if z3.is_const(t) and t.decl().kind() == z3.Z3_OP_UNINTERPRETED]
-    base = [t for t in _ground_int_terms(list(hyps) + sk_fmls) if _size(t) <= 4][:25]
-    cands = []
-    for c in consts[:4]:
-        cands += [c, c - 1, c + 1]
-        for b in base:
-            if not z3.eq(b, c):
-                cands += [c - b, c - b - 1, c - b + 1, c + b]
-    cands = cands[:160]
-    extra = []
+    one-variable universally quantified hypotheses at terms built from the skolem constants (t, t-1, t+1, t-c, c-t-1, ...);
+    a second round also uses the uninterpreted-function terms that the first round produced (witness chains)."""
+    # skolemise only the leading universal quantifiers of the goal (inner quantified sub-formulas stay intact, so that
+    # instances of hypotheses that mention the same sub-formulas match them syntactically)
+    goal = neg_goal.arg(0) if z3.is_not(neg_goal) else None
+    own = []
+    if goal is not None:
+        while z3.is_quantifier(goal) and goal.is_forall():
+            vs = [z3.Const(f"sk!{goal.var_name(i)}!{goal.get_id()}", goal.var_sort(i)) for i in range(goal.num_vars())]
+            own += [v for v in vs if v.sort() == z3.IntSort()]
+            goal = z3.substitute_vars(goal.body(), *reversed(vs))
+        sk_fmls = [z3.Not(goal)]
+    else:
+        sk_fmls = [neg_goal]
+    flat = []
+
+    def flatten(h):
+        if z3.is_and(h):
+            for c in h.children():
+                flatten(c)
+        else:
+            flat.append(h)
     for h in list(hyps) + sk_fmls:
-        if z3.is_quantifier(h) and h.is_forall() and h.num_vars() == 1 and h.var_sort(0) == z3.IntSort():
+        flatten(h)
+    quants = [h for h in flat
+              if z3.is_quantifier(h) and h.is_forall() and h.num_vars() == 1 and h.var_sort(0) == z3.IntSort()]
+    consts = own[:4] or [t for t in _ground_int_terms(sk_fmls) if z3.is_const(t) and t.decl().kind() == z3.Z3_OP_UNINTERPRETED][:4]
+    base = [t for t in _ground_int_terms(list(hyps) + sk_fmls) if _size(t) <= 4][:25]
+    extra = []
+    seen = set()
+    seeds = list(consts)
+    for rnd in range(rounds):
+        cands = []
+        for c in seeds:
+            cands += [c, c - 1, c + 1]
+            for b_ in base:
+                if not z3.eq(b_, c):
+                    cands += [c - b_, c - b_ - 1, c - b_ + 1, c + b_]
+                    if wide:
+                        cands += [b_ - c, b_ - c - 1]
+        cands = cands[:220 if wide else 160]
+        new = []
+        for h in quants:
             for t in cands:
-                extra.append(z3.substitute_vars(h.body(), t))
+                inst = z3.substitute_vars(h.body(), t)
+                if inst.get_id() not in seen:
+                    seen.add(inst.get_id())
+                    new.append(inst)
+        extra += new
+        if rnd + 1 < rounds:
+            # terms f(...) over the skolem constants that appeared in the new instances
+            seeds = []
+            for t in _ground_int_terms(new, limit=2000):
+                if z3.is_app(t) and t.num_args() >= 1 and t.decl().kind() == z3.Z3_OP_UNINTERPRETED and _size(t) <= 4 \
+                        and any(any(z3.eq(c, x) for c in consts) for x in _subterms(t)):
+                    seeds.append(t)
+            seeds = seeds[:6]
+            if not seeds:
+                break
     return sk_fmls, extra
 
 
-def _check(hyps, extra, timeout_s):
+def _subterms(e):
+    yield e
+    for c in e.children():
+        yield from _subterms(c)
+
+
+def _check(hyps, extra, timeout_s, opts=None):
     s = z3.Solver()
     s.set("timeout", int(timeout_s * 1000))
+    for k, v in (opts or {}).items():
+        s.set(k, v)
     s.add(*hyps)
     s.add(*extra)
     return s, s.check()
 
 
+NOMBQI = {"smt.mbqi": False}
+
+
 def _solve(i):
+    """portfolio: several cheap configurations with a short budget each (measured: every obligation of this project that is
+    provable at all is proved in < 1 s by at least one of them), then the long runs; `unsat` from any configuration counts
+    (added instances of hypotheses are sound), `sat` only from the plain query"""
     ob = _OBS[i]
     timeout_s = _CFG.get("timeout_s", 10)
     t0 = time.time()
@@ -125,21 +179,32 @@ def _solve(i):
         res = "VACUOUS" if r == z3.unsat else ("PROVED" if r == z3.sat else "COVER-UNKNOWN")
         return i, res, solver, time.time() - t0, model, ("" if r != z3.unknown else s.reason_unknown())
     neg = z3.Not(ob.goal)
-    # stage 1: plain z3, short budget
-    s, r = _check(ob.hyps, [neg], min(timeout_s, 4))
+    short = min(timeout_s, 4)
+    s, r = _check(ob.hyps, [neg], short)
     if r == z3.unknown:
         reason = s.reason_unknown()
-        # stage 2: sound instantiation hints (only ever turns unknown into unsat)
-        try:
-            sk, extra = instantiate_hints(ob.hyps, neg)
-            s2, r2 = _check(ob.hyps, list(sk) + extra, timeout_s)
-            if r2 == z3.unsat:
-                return i, "PROVED", "z3+hints", time.time() - t0, model, reason
-        except Exception as ex:  # pragma: no cover
-            reason += f" | hints: {ex}"
-        # stage 3: plain z3, full budget
-        if timeout_s > 4:
+        s1, r1 = _check(ob.hyps, [neg], short, NOMBQI)
+        if r1 == z3.unsat:
+            return i, "PROVED", "z3(e-matching)", time.time() - t0, model, reason
+        hints = {}
+        for tag, rounds, wide, opts in (("z3+hints(e-matching)", 1, False, NOMBQI), ("z3+hints", 1, False, None),
+                                        ("z3+hints2(e-matching)", 2, True, NOMBQI), ("z3+hints2", 2, True, None)):
+            try:
+                if (rounds, wide) not in hints:
+                    hints[(rounds, wide)] = instantiate_hints(ob.hyps, neg, rounds=rounds, wide=wide)
+                sk, extra = hints[(rounds, wide)]
+                s2, r2 = _check(ob.hyps, list(sk) + extra, short, opts)
+                if r2 == z3.unsat:
+                    return i, "PROVED", tag, time.time() - t0, model, reason
+            except Exception as ex:  # pragma: no cover
+                reason += f" | hints: {ex}"
+        # long runs
+        if timeout_s > short:
             s, r = _check(ob.hyps, [neg], timeout_s)
+            if r == z3.unknown:
+                s1, r1 = _check(ob.hyps, [neg], timeout_s, NOMBQI)
+                if r1 == z3.unsat:
+                    return i, "PROVED", "z3(e-matching)", time.time() - t0, model, reason
     if r == z3.unsat:
         res = "PROVED"
     elif r == z3.sat:
